@@ -5,14 +5,13 @@ from __future__ import annotations
 from contextlib import suppress
 from typing import TYPE_CHECKING
 
+from ..language.ast import Node
 from ..language.source import Source, is_source
 from ..pyutils import inspect
 from .graphql_error import GraphQLError
 
 if TYPE_CHECKING:
     from collections.abc import Collection
-
-    from ..language.ast import Node
 
 __all__ = ["located_error"]
 
@@ -49,9 +48,22 @@ def located_error(
         source = None
     try:
         positions = original_error.positions  # type: ignore
+        if not (
+            isinstance(positions, (list, tuple))
+            and all(isinstance(position, int) for position in positions)
+        ):
+            positions = None
     except AttributeError:
         positions = None
 
     with suppress_attribute_error:
-        nodes = original_error.nodes or nodes  # type: ignore
+        original_nodes = original_error.nodes  # type: ignore
+        if isinstance(original_nodes, Node):
+            nodes = [original_nodes]
+        elif (
+            original_nodes
+            and isinstance(original_nodes, (list, tuple))
+            and all(isinstance(node, Node) for node in original_nodes)
+        ):
+            nodes = list(original_nodes)
     return GraphQLError(message, nodes, source, positions, path, original_error)
